@@ -157,6 +157,7 @@ type Backend struct {
 	IgnoreReadErr bool    `json:"ignore_read_err,omitempty"` // answer per script even if reading the request failed
 	CloseBody     bool    `json:"close_body,omitempty"`      // call Request.Body.Close() after reading, before answering (as proxies do)
 	CloseAfterWrites int  `json:"close_after_writes,omitempty"` // with CloseBody: close only after this many response Write calls
+	IdentityHeader bool   `json:"identity_header,omitempty"` // an uncompressed response states "identity" in the protocol's encoding header
 	EarlyHeaders  bool    `json:"early_headers,omitempty"`   // the handler puts its protocol's response headers (content type, encodings) into the header map before it reads the request, as connect-go's handlers do
 	CloseAgain    bool    `json:"close_again,omitempty"`     // with CloseBody: the body is closed once more when the handler has returned (net/http's server does that for every request)
 	CompressError    bool   `json:"compress_error,omitempty"` // Connect unary: the error JSON body is sent compressed, too
